@@ -2405,12 +2405,15 @@ def run(ctx):
             return hl.tarray(max((x.element_type for x in ts), key=lambda x: RANK[x]))
         return None
 
-    def derive_sibling(rng, t, key, fields, exact):
+    def derive_sibling(rng, t, key, fields, exact, keypos=False):
         """a table with the same key as `t` whose value fields are those of `t` re-typed / re-ordered / dropped / extended;
         returns (table, ordered {value field: type})"""
         s = t
         f2 = dict(fields)
-        if not exact:
+        if keypos:
+            s = s.select(*list(f2))       # same value fields, same order, same types: only the key moves to the front of the row
+            ctx.count('nary_sibling_key_moved_only')
+        elif not exact:
             for f, ty in fields.items():
                 if rng.random() < 0.55:
                     if is_num(ty):
@@ -2465,7 +2468,8 @@ def run(ctx):
         n = rng.randint(2, 6)
         t = hl.utils.range_table(n)
         key = ['idx']
-        if rng.random() < 0.3:
+        keypos = rng.random() < 0.1          # the tables differ ONLY in where the key sits in the row
+        if keypos or rng.random() < 0.3:
             t = t.key_by(ks=hl.str(t.idx))
             key = ['ks']
         # 1..3 numeric value fields (scalars and arrays), sometimes a string too
@@ -2492,9 +2496,11 @@ def run(ctx):
         exact = kind == 'union' and not unify and rng.random() < 0.6       # without unify only identical row types are accepted
         if kind == 'mwzj':
             exact = rng.random() < 0.6
+        if keypos:
+            kind, unify, exact = 'union', rng.random() < 0.8, True
         tables = [(t, dict(fields))]
         for _k in range(rng.choice([1, 1, 2, 3])):
-            ok, sib = guarded('sibling', lambda: derive_sibling(rng, t, key, fields, exact))
+            ok, sib = guarded('sibling', lambda: derive_sibling(rng, t, key, fields, exact, keypos))
             if ok:
                 tables.append(sib)
         if len(tables) < 2:
